@@ -86,10 +86,12 @@ func nodeFrame(w *World, snap int, nT int, signer string) {
 		sym.Assert("C10.node-msg-own-pledge", k == signer)
 	}
 	for _, t := range w.TransfersSince(nT) {
-		if t.From == modAddr(nodetypes.ModuleName) || t.From == modAddr("market") {
+		// worker income withheld against the signer's own pledge debt moves between the two escrows (market -> node)
+		betweenEscrows := t.From == modAddr("market") && t.To == modAddr(nodetypes.ModuleName)
+		if (t.From == modAddr(nodetypes.ModuleName) || t.From == modAddr("market")) && !betweenEscrows {
 			sym.Assert("C10.node-msg-pays-signer", t.To == signer)
 		}
-		if t.To == modAddr(nodetypes.ModuleName) && t.From != "" {
+		if t.To == modAddr(nodetypes.ModuleName) && t.From != "" && !betweenEscrows {
 			sym.Assert("C10.node-msg-charges-signer", t.From == signer)
 		}
 	}
